@@ -171,11 +171,16 @@ CellWrong(c, fb, tc, v, pv, def, pdef) ==
                   IF w1 = {} \/ v.st # DefaultStyle THEN w1
                   ELSE IF StyleWrong(c, tc, Resolve(v.st, pdef)) = {} THEN {} ELSE w1
     IN
+    \* a fallback must be as wide as its rune (documented): two characters for a wide one, shown in the two columns;
+    \* a one-character fallback registered for a wide rune breaks that precondition and nothing is required
     IF v.k = "cont" THEN
-        IF legacywide THEN (IF tc.cp = 32 /\ tc.w = 1 THEN {} ELSE {"rune"})
+        IF legacywide THEN LET f == FbChar(fb, pv.cp) IN
+             IF Len(f) = 1 THEN {}
+             ELSE (IF tc.cp = (IF Len(f) = 2 THEN f[2] ELSE 32) /\ tc.w = 1 THEN {} ELSE {"rune"})
         ELSE (IF tc.w = 0 /\ tc.cp = 0 THEN {} ELSE {"cont"})
-    ELSE IF v.k = "wide" /\ legacywide THEN
-        (IF tc.cp = Glyph(c, fb, v.cp)[1] /\ tc.w = 1 THEN {} ELSE {"rune"}) \cup styleW
+    ELSE IF v.k = "wide" /\ legacywide THEN LET f == FbChar(fb, v.cp) IN
+        IF Len(f) = 1 THEN {}
+        ELSE (IF tc.cp = (IF Len(f) = 2 THEN f[1] ELSE 63) /\ tc.w = 1 THEN {} ELSE {"rune"}) \cup styleW
     ELSE IF c.cs # "utf8" /\ Unsure(c, v.cp) /\ ~Encodable(c, v.cp) THEN {}
     ELSE LET g == Glyph(c, fb, v.cp)
              comb == IF c.cs = "utf8" THEN v.comb ELSE SelectSeq(v.comb, LAMBDA x : Encodable(c, x))
